@@ -182,7 +182,8 @@ func (g *Generator) beginOutput(
 	}
 
 	for _, o := range g.outputs {
-		if o.file.FileName == outputName && o.file.Package.QualifiedName != packageName {
+		// Schemas without an output file (their types live elsewhere) share no file: nothing to conflict on.
+		if outputName != "" && o.file.FileName == outputName && o.file.Package.QualifiedName != packageName {
 			return nil, fmt.Errorf(
 				"%w (%s) mapped to two different Go packages (%q and %q) for schema %q",
 				errConflictSameFile, o.file.FileName, o.file.Package.QualifiedName, packageName, id)
